@@ -216,11 +216,17 @@ class ChunkIO(RuleBasedStateMachine):
                 return
             self.open_scale = si
         arr = self.content(sc, cc, seed)
+        layout = ds.LAYOUTS[(seed // 7) % 9] if (seed // 7) % 9 < len(
+            ds.LAYOUTS) else "c"
+        if layout != "c":
+            self.flags.add("layout_" + layout)
+        given = ds.laid_out(arr, layout)
         try:
-            self.pio.write_chunk(arr.copy(), sc["key"], cc)
+            self.pio.write_chunk(given, sc["key"], cc)
         except Exception as exc:
-            self.fail("write_chunk(%s, %s) failed: %s %s" % (
-                sc["key"], cc, type(exc).__name__, exc))
+            self.fail("write_chunk(%s, %s) failed for a %s array: %s %s" % (
+                sc["key"], cc, layout, type(exc).__name__, exc))
+
         if (si, cc) in self.model:
             self.flags.add("overwrite")
         self.model[(si, cc)] = arr
